@@ -10,8 +10,8 @@ from vlib import enc
 
 def _geo(c):
     from pyunicorn.core import GeoGrid, GeoNetwork
-    lat = np.array(c["lat"], dtype=float)
-    lon = np.array(c["lon"], dtype=float)
+    lat = enc.represent(c["lat"], c["case"])[0]
+    lon = enc.represent(c["lon"], c["case"] + "lon")[0]
     g = GeoGrid(np.arange(3.0), lat, lon, silence_level=3)
     o = {"exc": ""}
     D = g.angular_distance()
@@ -44,7 +44,7 @@ def _geo(c):
 def _euc(c):
     from pyunicorn.core import Grid
     pts = np.array(c["pts"], dtype=float)
-    g = Grid(np.arange(3.0), pts.T.copy(), silence_level=3)
+    g = Grid(np.arange(3.0), enc.represent(pts.T, c["case"])[0], silence_level=3)
     D = g.euclidean_distance()
     o = {"exc": "", "d3": enc.arr(D, 1000), "sym": int(np.array_equal(D, D.T)),
          "diag0": int(np.all(np.diag(D) == 0))}
